@@ -387,7 +387,47 @@ fn main() {
         }
     }
 
-    let evaluations = hook_cases + cases.len() + probes.len() + rustc_runs + repo_runs;
+    // ---- E. library API: the order in which target and edition are set must not matter (the CLI always applies the target first).
+    //      Model-free oracle on the tokens: a `c"…"` literal needs edition 2021; `unsafe extern` needs 1.82; `offset_of!` 1.77.
+    let mut api_runs = 0u64;
+    {
+        let dir = std::env::temp_dir().join(format!("bgverif_c14_api_{}", std::process::id()));
+        let _ = std::fs::create_dir_all(&dir);
+        let h = dir.join("api.h");
+        write(&h, "#define C14_GREETING \"hello\"\nstruct c14_s { int a; char b; };\nint c14_f(struct c14_s *s);\n");
+        let targets: Vec<(u64, bindgen::RustTarget)> = [60u64, 70, 76, 77, 81, 82, 85].iter().filter_map(|m| bindgen::RustTarget::stable(*m, 0).ok().map(|t| (*m, t))).collect();
+        for (minor, target) in &targets {
+            for (ename, edition) in [("2018", bindgen::RustEdition::Edition2018), ("2021", bindgen::RustEdition::Edition2021)] {
+                for edition_first in [false, true] {
+                    let (t, e, hp) = (*target, edition, h.clone());
+                    let r = std::panic::catch_unwind(move || {
+                        let b = bindgen::Builder::default().header(hp.to_string_lossy()).generate_cstr(true);
+                        let b = if edition_first { b.rust_edition(e).rust_target(t) } else { b.rust_target(t).rust_edition(e) };
+                        b.generate().map(|x| x.to_string()).map_err(|e| e.to_string())
+                    });
+                    api_runs += 1;
+                    let case = format!("Builder::{} minor=1.{minor} edition={ename}", if edition_first { "rust_edition(..).rust_target(..)" } else { "rust_target(..).rust_edition(..)" });
+                    match r {
+                        Err(_) => oracle.push(format!("{{\"class\":\"library API panics\",\"case\":{}}}", json_str(&case))),
+                        Ok(Err(_)) => {} // an unsupported pair is refused: judged by part B
+                        Ok(Ok(text)) => {
+                            let toks: String = text.split_whitespace().collect::<Vec<_>>().join(" ");
+                            let mut newer = vec![];
+                            if toks.contains("c\"hello\"") && ename == "2018" { newer.push("C string literal under edition 2018"); }
+                            if toks.contains("c\"hello\"") && *minor < 77 { newer.push("C string literal before 1.77"); }
+                            if toks.contains("unsafe extern") && *minor < 82 { newer.push("unsafe extern before 1.82"); }
+                            if toks.contains("offset_of !") || toks.contains("offset_of!") { if *minor < 77 { newer.push("offset_of! before 1.77"); } }
+                            if !newer.is_empty() { oracle.push(format!("{{\"class\":\"construct newer than the target / edition in library output\",\"case\":{},\"newer\":{}}}", json_str(&case), json_str(&newer.join("; ")))); }
+                            distinct.insert(format!("api:{minor}:{ename}:{edition_first}"));
+                        }
+                    }
+                }
+            }
+        }
+        let _ = std::fs::remove_dir_all(&dir);
+    }
+
+    let evaluations = hook_cases + cases.len() + probes.len() + rustc_runs + repo_runs + api_runs as usize;
     let mut j = String::from("{\n");
     j += &format!(" \"tier\": {}, \"seed\": {},\n", json_str(&args.tier), args.seed);
     j += &format!(" \"latest\": {latest}, \"earliest\": {earliest}, \"top_minor\": {top},\n");
